@@ -67,6 +67,19 @@ let dispatch fn a =
     (match s_iban_verdict (t 0) with None -> "ACCEPT" | Some l -> "REJECT|" ^ String.concat "|" (List.map exn_name l))
   | "spec_bic_verdict" ->
     (match s_bic_verdict (b 1) (t 0) with None -> "ACCEPT" | Some l -> "REJECT|" ^ String.concat "|" (List.map exn_name l))
+  | "spec_variant_same" -> if x_text_eqb (x_clean (t 0)) (x_clean (t 1)) then "SAME" else "SAME|DIFF"
+  | "iban_formatted_rt" ->
+    let s = x_clean (t 0) in let f = x_iban_formatted s in
+    string_of_text f ^ "|RT" ^ string_of_bool' (x_text_eqb (x_clean f) s)
+  | "bic_formatted_rt" ->
+    let s = x_clean (t 0) in let f = x_bic_formatted s in
+    string_of_text f ^ "|RT" ^ string_of_bool' (x_text_eqb (x_clean f) s)
+  | "iban_decomp" ->
+    let s = x_clean (t 0) in
+    let cc = x_iban_cc s and bb = x_iban_bban s in
+    let comps = List.map (fun k -> out string_of_text (x_bban_component cc bb k)) (texts_of_string a.(1)) in
+    String.concat " / " ([string_of_text cc; string_of_text (x_iban_dd s); string_of_text bb] @ comps
+       @ [out string_of_text (x_iban_from_bban cc bb true false)])
   | "spec_iso_ok" -> string_of_bool' (s_iso_ok (t 0))
   | "spec_check_digits" -> string_of_text (s_check_digits (t 0) (t 1))
   | "spec_conforms" -> string_of_bool' (s_conforms (t 0) (t 1))
